@@ -337,23 +337,14 @@ theorem normalize_idem (k : Bool) (p : Path) : normalize k (normalize k p) = nor
 example : normalize true (normalize true [.normal ['a'], .parent, .cur, .normal ['b']]) =
     [.cur, .normal ['b']] := by decide
 
-/-- Full statement: normalisation never changes where a path leads (from any working
-directory, in a tree without symlinks whose walked directories exist). -/
-def normalize_lexical_full : Prop :=
-  ∀ (k : Bool) (cwd : List Name) (p : Path), resolve cwd (normalize k p) = resolve cwd p
-
-/-- False (F16): `/../a.lua` leads to `/a.lua`, its normal form `a.lua` leads to `cwd/a.lua`. -/
-theorem normalize_lexical_full_false : ¬ normalize_lexical_full := by
-  intro h
-  have := h true [['w']] [.root, .parent, .normal ['a', '.', 'l', 'u', 'a']]
-  revert this; decide
-
-/-- Outside the root-popping region normalisation is purely lexical. -/
-theorem normalize_lexical_partial (k : Bool) (cwd : List Name) (p : Path) (hH : H15 k p = true) :
+/-- Normalisation never changes where a path leads: from any working directory, in a tree
+without symlinks whose walked directories exist (full statement; it was false before the fix
+of F16 because `..` popped `RootDir`). -/
+theorem normalize_lexical (k : Bool) (cwd : List Name) (p : Path) :
     resolve cwd (normalize k p) = resolve cwd p := by
   by_cases hp : p = []
   · simp [normalize, hp]
-  · have := resolve_foldl k cwd p [] hH
+  · have := resolve_foldl k cwd p []
     unfold normalize
     simp only [hp, if_false]
     by_cases hst : p.foldl (normStep k) [] = []
@@ -363,30 +354,24 @@ theorem normalize_lexical_partial (k : Bool) (cwd : List Name) (p : Path) (hH : 
     · simp only [hst, if_false]
       simpa [resolve] using this
 
-example : H15 false [.normal ['a'], .parent, .parent, .cur, .normal ['b']] = true ∧
-    normalize false [.normal ['a'], .parent, .parent, .cur, .normal ['b']] = [.parent, .normal ['b']] := by
+example : normalize false [.normal ['a'], .parent, .parent, .cur, .normal ['b']] = [.parent, .normal ['b']] := by
   decide
 
-/-- Full statement: an absolute path stays absolute. -/
-def normalize_keeps_root_full : Prop :=
-  ∀ (k : Bool) (p : Path), hasRoot p = true → hasRoot (normalize k p) = true
+/-- regression (former F16 witness): `/../a.lua` is `/a.lua`, and leads to the same place -/
+example : normalize true [.root, .parent, .normal ['a', '.', 'l', 'u', 'a']] =
+      [.root, .normal ['a', '.', 'l', 'u', 'a']] ∧
+    resolve [['w']] (normalize true [.root, .parent, .normal ['a', '.', 'l', 'u', 'a']]) =
+      resolve [['w']] [.root, .parent, .normal ['a', '.', 'l', 'u', 'a']] := by decide
 
-/-- False (F16): `..` directly under the root pops `RootDir`; `/../a.lua` becomes `a.lua`. -/
-theorem normalize_keeps_root_full_false : ¬ normalize_keeps_root_full := by
-  intro h
-  have := h true [.root, .parent, .normal ['a', '.', 'l', 'u', 'a']] (by decide)
-  revert this; decide
-
-theorem normalize_keeps_root_partial (k : Bool) (p : Path) (hH : H15 k p = true)
-    (hroot : hasRoot p = true) : hasRoot (normalize k p) = true := by
+/-- An absolute path stays absolute (full statement; false before the fix of F16). -/
+theorem normalize_keeps_root (k : Bool) (p : Path) (hroot : hasRoot p = true) :
+    hasRoot (normalize k p) = true := by
   cases p with
   | nil => simp [hasRoot] at hroot
   | cons c cs =>
     have hc : c = .root := by simpa [hasRoot] using hroot
     subst hc
-    have hH' : rootPopFree k [.root] cs = true := by
-      simpa [H15, rootPopFree, normStep] using hH
-    have hl := last_root_foldl k cs [.root] hH' rfl
+    have hl := last_root_foldl k cs [.root] rfl
     unfold normalize
     simp only [List.cons_ne_nil, if_false, List.foldl_cons, normStep]
     have hne : cs.foldl (normStep k) [.root] ≠ [] := by
@@ -395,9 +380,8 @@ theorem normalize_keeps_root_partial (k : Bool) (p : Path) (hH : H15 k p = true)
     rw [List.head?_reverse, hl]
     rfl
 
-example : H15 true [.root, .normal ['a'], .parent, .normal ['b']] = true ∧
-    hasRoot [.root, .normal ['a'], .parent, .normal ['b']] = true ∧
-    normalize true [.root, .normal ['a'], .parent, .normal ['b']] = [.root, .normal ['b']] := by
+example : hasRoot [.root, .parent, .parent, .normal ['b']] = true ∧
+    normalize true [.root, .parent, .parent, .normal ['b']] = [.root, .normal ['b']] := by
   decide
 
 /-! ## convert_require keeps the target -/
@@ -454,31 +438,25 @@ theorem convert_relative_denotes_partial (found q : Path) (s : Name)
     | nil => rfl
     | cons c cs => cases c <;> simp_all [isPlain, hasRoot]
   have hr : reparse r = r := reparse_noRootCur r h2
-  have hnr : noRoot r = true := by
-    simp only [noRoot, List.all_eq_true]
-    intro c hc
-    have := (List.all_eq_true.mp h2) c hc
-    simp at this
-    simpa using this.1
   refine ⟨normalize true (if !startsDot r then push [.cur] r else r), ?_, ?_⟩
   · simp [getRelativePath, hsp, hrootf, hrootq, diffPaths, h1, hr]
   · intro cwd
-    have key : ∀ (x : Path), noRoot x = true → resolve (resolve cwd q) (normalize true x) = resolve (resolve cwd q) x :=
-      fun x hx => normalize_lexical_partial true _ x (rootPopFree_of_noRoot true x [] rfl hx)
+    have key : ∀ (x : Path), resolve (resolve cwd q) (normalize true x) = resolve (resolve cwd q) x :=
+      fun x => normalize_lexical true _ x
     by_cases hd : startsDot r = true
     · simp only [hd, Bool.not_true, Bool.false_eq_true, if_false]
-      rw [key r hnr, h3]
+      rw [key r, h3]
     · have hd' : startsDot r = false := by simpa using hd
       have hpr : hasRoot r = false := by
         cases r with
         | nil => rfl
         | cons c cs =>
-          cases c <;> simp_all [hasRoot, noRoot]
+          cases c <;> simp_all [hasRoot, noRootCur]
       have hpush : push [.cur] r = .cur :: r := by
         have : dropCur r = r := dropCur_noRootCur r h2
         simp [push, hpr, reparse, this]
       simp only [hd', Bool.not_false, if_true]
-      rw [hpush, key (.cur :: r) (by simpa [noRoot] using hnr)]
+      rw [hpush, key (.cur :: r)]
       simpa [resolve, resolveStep] using h3 cwd
 
 example : isPlain [.normal ['l', 'i', 'b'], .normal ['m', '.', 'l', 'u', 'a']] = true ∧
